@@ -26,6 +26,7 @@ type vRun struct {
 	breaks  int
 	drawing int
 	embeds  []string // r:embed ids of the pictures in this run
+	descrs  []string // description + "|" + title of those pictures (wp:docPr), same order
 }
 
 type vPara struct {
@@ -104,6 +105,13 @@ func viewDoc(raw []byte) *vDoc {
 					for _, bl := range k.Find(opc.NsA, "blip") {
 						if id, ok := bl.Attr(opc.NsR, "embed"); ok {
 							vr.embeds = append(vr.embeds, id)
+							dt := ""
+							if dp := k.Find(opc.NsWP, "docPr"); len(dp) > 0 {
+								de, _ := dp[0].Attr("", "descr")
+								ti, _ := dp[0].Attr("", "title")
+								dt = de + "|" + ti
+							}
+							vr.descrs = append(vr.descrs, dt)
 						}
 					}
 				case k.Is(opc.NsW, "tab"):
@@ -330,6 +338,7 @@ type c18Model struct {
 	hdrSplit   bool
 	image      bool
 	pics       map[string][]byte // image placeholder name -> picture supplied for it
+	picAlt     map[string]string // name -> description given with the picture ("" = none)
 	imgCell    bool              // a table right after the image paragraphs holds an image placeholder in a cell
 }
 
@@ -510,7 +519,12 @@ func c18Build(c *core.Ctx, r *rng.R) (*document.Document, *c18Model) {
 			}
 			return "{{#image " + n + "}}"
 		}
-		for i, n := 0, r.Range(1, 4); i < n; i++ {
+		nBody := r.Range(1, 4)
+		onlyInCells := r.Chance(1, 4) // no image placeholder outside the table
+		if onlyInCells {
+			nBody = 0
+		}
+		for i, n := 0, nBody; i < n; i++ {
 			serial++
 			txt := ph()
 			switch r.Intn(6) {
@@ -531,7 +545,7 @@ func c18Build(c *core.Ctx, r *rng.R) (*document.Document, *c18Model) {
 				m.paras = append(m.paras, p)
 			}
 		}
-		if r.Chance(1, 3) {
+		if onlyInCells || r.Chance(1, 3) {
 			if t, err := d.AddTable(&document.TableConfig{Rows: 1, Cols: 2, Width: 5000}); err == nil && t != nil {
 				m.imgCell = true
 				t.SetCellText(0, 0, "⟦imgtbl⟧ picture:")
@@ -644,8 +658,19 @@ func c18Case(c *core.Ctx) *core.Result {
 		}
 		data.SetList("rows", items)
 	}
-	for n, b := range m.pics {
-		data.SetImageFromData(n, b, nil)
+	m.picAlt = map[string]string{}
+	for _, n := range []string{"pic", "pic2", "pic3"} {
+		b, ok := m.pics[n]
+		if !ok {
+			continue
+		}
+		if r.Chance(1, 3) {
+			// a picture that comes with a description and a title of its own
+			m.picAlt[n] = "described <" + n + ">"
+			data.SetImageWithDetails(n, "", b, nil, "described <"+n+">", "title of <"+n+">")
+		} else {
+			data.SetImageFromData(n, b, nil)
+		}
 	}
 	var out *document.Document
 	if cg := core.Catch(func() { out, err = eng.RenderTemplateToDocument("t", data) }); cg != nil {
@@ -947,6 +972,27 @@ func c18Case(c *core.Ctx) *core.Result {
 				kind = "picture-count"
 			}
 			res.Add("image-placeholder/body/"+kind, fmt.Sprintf("the body reads %v, expected %v", got, want), note)
+		}
+		// a picture carries the description it was given, and never the one given with another picture
+		for _, p := range ov.paras {
+			for _, rr := range p.runs {
+				for i, id := range rr.embeds {
+					n := picName(ov.parts[ov.relTarget[id]])
+					if n == "?" || i >= len(rr.descrs) {
+						continue
+					}
+					res.Count("picture_descriptions_checked", 1)
+					own := m.picAlt[n]
+					if own != "" && !strings.HasPrefix(rr.descrs[i], own+"|") {
+						res.Add("image-placeholder/description/own-description-missing", fmt.Sprintf("picture %s was given the description %q and shows %q", n, own, rr.descrs[i]), note)
+					}
+					for other, alt := range m.picAlt {
+						if other != n && alt != "" && strings.Contains(rr.descrs[i], alt) {
+							res.Add("image-placeholder/description/description-of-another-picture", fmt.Sprintf("picture %s shows the description given with picture %s: %q", n, other, rr.descrs[i]), note)
+						}
+					}
+				}
+			}
 		}
 		if m.imgCell {
 			var bc, oc []*vPara
